@@ -112,6 +112,21 @@ func (p *c04) specs(tier string) []c04spec {
 	for i := 0; i < nCtx; i++ {
 		sp = append(sp, c04spec{kind: "enginectx", sample: 40})
 	}
+	// appended last so that the indices of the older families stay what they were
+	nRec := 240
+	if tier == "thorough" {
+		nRec = 6000
+	}
+	for i := 0; i < nRec; i++ {
+		sp = append(sp, c04spec{kind: "recursion", sample: 4})
+	}
+	nEsc := 60
+	if tier == "thorough" {
+		nEsc = 1500
+	}
+	for i := 0; i < nEsc; i++ {
+		sp = append(sp, c04spec{kind: "escapes", sample: 120})
+	}
 	if tier == "thorough" {
 		p.specsThorough = sp
 	} else {
@@ -120,21 +135,129 @@ func (p *c04) specs(tier string) []c04spec {
 	return sp
 }
 
+// escapeLiteralTemplate builds an expression around a string literal made of backslash escapes of every kind the
+// lexer can meet - complete, cut short, unknown, and in every position including the very end of the literal.
+func escapeLiteralTemplate(r *fw.Rand) string {
+	pieces := []string{`\n`, `\t`, `\r`, `\"`, `\\`, `\u`, `\u0`, `\u00`, `\u004`, `\u0041`, `\u00e9`, `\ud83d`, `\ud83d\ude00`, `\udc00`, `\U`, `\U0001`, `\U0001F600`, `\U00110000`,
+		`\x`, `\x4`, `\x41`, `\xff`, `\0`, `\00`, `\101`, `\777`, `\a`, `\b`, `\f`, `\v`, `\d`, `\w`, `\s`, `\.`, `\'`, `\ `, `\/`, `\(`, `\@`, `\é`, `\`,
+		"a", "C:", "é", " ", "@", "(", ")", "'", "1", "{", "%", "\n", "\t"}
+	n := r.Range(1, 5)
+	var b strings.Builder
+	for i := 0; i < n; i++ {
+		b.WriteString(fw.Pick(r, pieces))
+	}
+	lit := b.String()
+	// a lone backslash right before the closing quote escapes the quote: such a literal is unterminated, which is
+	// one of the shapes wanted, so nothing is repaired here
+	q := `"` + lit + `"`
+	switch r.Intn(8) {
+	case 0:
+		return "@(" + q + ")"
+	case 1:
+		return "@(upper(" + q + "))"
+	case 2:
+		return "@(regex_match(contact.name, " + q + "))"
+	case 3:
+		return "@(" + q + " & " + q + ")"
+	case 4:
+		return "@(has_pattern(\"abc\", " + q + "))"
+	case 5:
+		return "hi @(" + q + ") there " + lit
+	case 6:
+		return "@(array(" + q + ", 1)[0])"
+	default:
+		return "@(text_length(" + q + "))"
+	}
+}
+
+// recursionTemplate builds a template in which anonymous functions receive functions (themselves included) as
+// arguments and call them: the only way an Excellent expression can recurse. Nothing in the grammar bounds the depth
+// or the fan-out of such calls, so whether evaluation returns is up to the evaluator.
+func recursionTemplate(r *fw.Rand) string {
+	names := []string{"f", "g"}
+	var body func(d int) string
+	call := func() string {
+		a, b := fw.Pick(r, names), fw.Pick(r, names)
+		switch r.Intn(4) {
+		case 0:
+			return a + "(" + b + ", " + a + ")"
+		case 1:
+			return a + "(" + a + ", " + b + ")"
+		default:
+			return a + "(" + b + ", " + b + ")"
+		}
+	}
+	body = func(d int) string {
+		if d <= 0 {
+			return call()
+		}
+		switch r.Intn(12) {
+		case 0:
+			return body(d-1) + " & " + body(d-1)
+		case 1:
+			return body(d-1) + " + " + body(d-1)
+		case 2:
+			return "if(" + fw.Pick(r, []string{"true", "false", "foo > 1", "contact.name"}) + ", " + body(d-1) + ", " + body(d-1) + ")"
+		case 3:
+			return "foreach(" + fw.Pick(r, []string{"arr", "array(1, 2, 3)", "split(\"a b c d\", \" \")", "array(f, g)"}) + ", (x) => " + body(d-1) + ")"
+		case 4:
+			return "array(" + body(d-1) + ", " + body(d-1) + ")"
+		case 5:
+			return "upper(" + body(d-1) + ")"
+		case 6:
+			return "default(" + body(d-1) + ", " + body(d-1) + ")"
+		case 7:
+			return "(" + body(d-1) + ")(f, g)"
+		case 8:
+			return "((h, g) => " + body(d-1) + ")(" + fw.Pick(r, names) + ", " + fw.Pick(r, names) + ")"
+		case 9:
+			return "is_error(" + body(d-1) + ") & " + body(d-1)
+		case 10:
+			return "object(\"a\", " + body(d-1) + ").a"
+		default:
+			return call()
+		}
+	}
+	fn := func() string { return "(f, g) => " + body(r.Range(0, 2)) }
+	switch r.Intn(5) {
+	case 0:
+		return "@(((f, g) => " + body(r.Range(0, 2)) + ")(" + fn() + ", " + fn() + "))"
+	case 1:
+		return "@(foreach(array(" + fn() + ", " + fn() + "), (f) => f(f, f)))"
+	case 2:
+		return "@(((f) => f(f, f))(" + fn() + ")) and @(((f) => f(f, f))(" + fn() + "))"
+	case 3:
+		return "@(json(((f, g) => " + body(1) + ")(" + fn() + ", " + fn() + ")))"
+	default:
+		return "@(((f, g) => " + body(1) + ")(" + fn() + ", upper))"
+	}
+}
+
 func (p *c04) NumGenerated(tier string) int { return len(p.specs(tier)) }
 
 func (p *c04) Directed() []string {
-	return []string{"probes", "doc-examples", "deep-nesting", "known-hang:round-places", "known-hang:json-exponent", "engine-contexts"}
+	return []string{"probes", "doc-examples", "self-application", "literal-escapes", "deep-nesting", "known-hang:round-places", "known-hang:json-exponent", "engine-contexts"}
 }
 
 func (p *c04) CaseTimeouts(c fw.Case) (int, int) {
 	if strings.HasPrefix(c.Directed, "known-hang:") {
 		return 6, 10
 	}
+	// self-applying functions legitimately run until the evaluator's call limit (10^5 calls, each failing one with an
+	// error text as long as the nesting): fractions of a second each on an idle machine, seconds on a loaded one
+	if c.Directed == "self-application" {
+		return 90, 180
+	}
+	if c.Directed == "" {
+		if sp := p.specs(c.Tier); c.Gen < len(sp) && sp[c.Gen].kind == "recursion" {
+			return 60, 120
+		}
+	}
 	return 0, 0
 }
 
 func (p *c04) Floors(tier string) []string {
-	return []string{"calls.direct", "calls.template", "calls.expression", "calls.template_value", "reached_body", "returned_error"}
+	return []string{"calls.direct", "calls.template", "calls.expression", "calls.template_value", "reached_body", "returned_error", "templates.recursion", "templates.escapes"}
 }
 
 func (p *c04) ExtraEvidence(tier string, counters map[string]int64) map[string]any {
@@ -482,6 +605,32 @@ func (p *c04) Run(c fw.Case) fw.Result {
 		res.Fingerprint = "grammar:" + first
 		res.NonTrivial = res.Counters["reached_body"] > 0
 		res.Sample = map[string]any{"kind": "grammar", "first_template": first, "templates": sp.sample}
+	case "recursion":
+		var first string
+		for i := 0; i < sp.sample; i++ {
+			t := recursionTemplate(r)
+			if i == 0 {
+				first = t
+			}
+			cr.res.Count("templates.recursion", 1)
+			cr.template(r, t)
+		}
+		res.Fingerprint = "recursion:" + first
+		res.NonTrivial = res.Counters["reached_body"] > 0
+		res.Sample = map[string]any{"kind": "recursion", "first_template": first, "templates": sp.sample}
+	case "escapes":
+		var first string
+		for i := 0; i < sp.sample; i++ {
+			t := escapeLiteralTemplate(r)
+			if i == 0 {
+				first = t
+			}
+			cr.res.Count("templates.escapes", 1)
+			cr.template(r, t)
+		}
+		res.Fingerprint = "escapes:" + first
+		res.NonTrivial = res.Counters["reached_body"] > 0
+		res.Sample = map[string]any{"kind": "escapes", "first_template": first, "templates": sp.sample}
 	case "enginectx":
 		p.engineContexts(c, cr, r, sp.sample, &res)
 	case "json":
@@ -660,6 +809,34 @@ func (p *c04) directed(c fw.Case, cr *c04run, r *fw.Rand) {
 				cr.direct(f, make([]types.XValue, n))
 			}
 			cr.direct(f, []types.XValue{f, f, f})
+		}
+	case "literal-escapes":
+		// every escape form alone, cut short at every length, as the last thing in the literal
+		for _, e := range []string{`n`, `"`, `\`, `u`, `u0`, `u00`, `u004`, `u0041`, `ud800`, `U`, `U0`, `U0001F60`, `U0001F600`, `x`, `x4`, `x41`, `0`, `00`, `101`, `a`, `d`, `w`, `'`, ` `, `é`} {
+			for _, pre := range []string{"", "C:", `\d+`, "é"} {
+				for _, wrap := range []string{`@("%s")`, `@(upper("%s"))`, `@(regex_match("x", "%s"))`, `@("%s" & "a")`, `x @("%s") y`} {
+					cr.res.Count("templates.escapes", 1)
+					cr.template(r, fmt.Sprintf(wrap, pre+`\`+e))
+				}
+			}
+		}
+	case "self-application":
+		// functions handed to themselves: unbounded depth, unbounded fan-out, and both under the iterating built-ins
+		for _, t := range []string{
+			`@(((f) => f(f))((f) => f(f)))`,
+			`@(((f) => f(f) & f(f))((f) => f(f) & f(f)))`,
+			`@(((f) => array(f(f), f(f), f(f)))((f) => array(f(f), f(f), f(f))))`,
+			`@(((f) => foreach(array(1, 2), (x) => f(f)))((f) => foreach(array(1, 2), (x) => f(f))))`,
+			`@(((f, n) => if(n > 12, "x", f(f, n + 1) & f(f, n + 1)))((f, n) => if(n > 12, "x", f(f, n + 1) & f(f, n + 1)), 0))`,
+			`@(((f, n) => if(n > 90, n, f(f, n + 1)))((f, n) => if(n > 90, n, f(f, n + 1)), 0))`,
+			`@(((f, n) => if(n > 5000, n, f(f, n + 1)))((f, n) => if(n > 5000, n, f(f, n + 1)), 0))`,
+			`@(foreach(array((f) => f(f)), (f) => f(f)))`,
+			`@(((f) => default(f(f), f(f)))((f) => default(f(f), f(f))))`,
+			`@(((f) => is_error(f(f)) & is_error(f(f)))((f) => is_error(f(f)) & is_error(f(f))))`,
+			`@(((f) => f(f))(upper))`, `@(((f) => f(f)(f))((f) => f))`,
+		} {
+			cr.res.Count("templates.recursion", 1)
+			cr.template(r, t)
 		}
 	case "deep-nesting":
 		for _, n := range []int{10, 100, 500, 2000} {
